@@ -8,7 +8,8 @@ RULE = ("metamorphic: for every generated message value the '<' and '>' encoding
         "little/big/native vector encoders of the generated C++ full codec, run under ASan+UBSan) are compared with each "
         "other through the reference role map: same length, every multi-byte scalar/counter/flag/discriminator/enum "
         "mirrored in place, bytes fields identical, every padding byte zero in both, native == host order; values use "
-        "non-palindromic byte patterns; distinct by span-layout signature, non-trivial = has a multi-byte scalar and padding")
+        "non-palindromic byte patterns (and -0.0); two cases in three are preceded by a single-order encode of the default "
+        "message; distinct by span-layout signature, non-trivial = has a multi-byte scalar and padding")
 ASSUMPTIONS = [
     "the role map (which byte belongs to which scalar / is padding) comes from the reference encoder's layout of the "
     "same value; when the codec's length differs from the reference's the case is counted as role-map-unavailable and "
@@ -52,7 +53,7 @@ def mirror_law(le, be, spans):
     return None
 
 
-def check_case(acc, sch, w, mod, tname, tags, mode, v):
+def check_case(acc, sch, w, mod, tname, tags, mode, v, history=True):
     exp, spans = w.encode(tname, v, '<')
     acc.ev()
     multi = any(s[1] > 1 and s[2] not in ('pad', 'bytes') for s in spans)
@@ -67,6 +68,15 @@ def check_case(acc, sch, w, mod, tname, tags, mode, v):
         return wit
     try:
         m = getattr(mod, tname)()
+        # process history: two cases in three first encode the still-default message in ONE byte order only, so that
+        # anything the codec remembers per byte order has a different past for '<' and '>'
+        first = ('<', '>', None)[acc.p['evaluations'] % 3] if history else None
+        if first:
+            try:
+                m.encode(first)
+                acc.count('single_order_encodes_before_the_pair')
+            except Exception:  # noqa - unset bytes default (C01's recorded finding)
+                pass
         pyrt.build(m, sch, tname, v)
         le = m.encode('<')
         be = m.encode('>')
@@ -91,12 +101,39 @@ def check_case(acc, sch, w, mod, tname, tags, mode, v):
                     'little': C.hexs(le), 'big': C.hexs(be)})
 
 
+def fresh_process_history(acc, wd, first):
+    """Runs before anything else was encoded in this worker process: every scalar type's very first encodes happen in
+    ONE byte order (`first`), with the default values; only then the values that compare equal to those defaults
+    without being them (-0.0) are encoded in both orders and put to the mirror law."""
+    M = S.Member
+    sch = S.Schema([S.Struct('HE', [M('a', 'r64'), M('b', 'r32')]),
+                    S.Union('HU', [(1, 'r32', 'x'), (2, 'r64', 'y')]),
+                    S.Struct('H', [M('a', 'r32'), M('b', 'r64'), M('c', 'r32', S.DYNAMIC), M('d', 'r64', S.OPTIONAL),
+                                   M('e', 'HE', S.FIXED, 2), M('u', 'HU'), M('i', 'i64'), M('j', 'u16')])])
+    try:
+        mod, nodes = pyrt.compile_python(sch.to_prophy(), wd)
+    except pyrt.CompileFailed as e:
+        acc.prereq({'stage': e.stage, 'error': str(e)[:300]})
+        return
+    w = W.Wire(sch)
+    m = mod.H()
+    m.c[:] = [0.0, 0.0]
+    m.d = 0.0
+    m.encode(first)
+    acc.count('fresh_process_histories')
+    nz = {'a': -0.0, 'b': -0.0, 'c': [-0.0, 0.0], 'd': -0.0, 'e': [{'a': -0.0, 'b': 0.0}, {'a': 0.0, 'b': -0.0}],
+          'u': ('y', -0.0), 'i': 0, 'j': 0}
+    check_case(acc, sch, w, mod, 'H', ['fresh-process-history', first], 'negative-zero', nz, history=False)
+
+
 def run_shard(spec):
     if spec.get('cpp'):
         from . import c19cpp
         return c19cpp.run_shard(spec)
     acc = Acc()
     with C.Workdir() as wd:
+        if spec['kind'] != 'replay':
+            fresh_process_history(acc, wd, '<>'[spec.get('seed', 0) % 2])
         for sch, names, tagmap, mod, nodes, rng in C.iter_py_schemas(spec, acc, wd):
             w = W.Wire(sch)
             for n in names:
